@@ -213,6 +213,8 @@ func checkValue(c ValueCase) ev.Verdict {
 		{"MarshalEscaped(false)", func() ([]byte, error) { return fj.MarshalEscaped(val, false) }, stdEnc(false, "")},
 		{"MarshalEscaped(true)", func() ([]byte, error) { return fj.MarshalEscaped(val, true) }, stdEnc(true, "")},
 		{"MarshalIndent", func() ([]byte, error) { return fj.MarshalIndent(val, ">", "\t") }, func() ([]byte, error) { return stdjson.MarshalIndent(val, ">", "\t") }},
+		{"MarshalIndent(\"\",\"\")", func() ([]byte, error) { return fj.MarshalIndent(val, "", "") }, func() ([]byte, error) { return stdjson.MarshalIndent(val, "", "") }},
+		{"MarshalIndent(prefix only)", func() ([]byte, error) { return fj.MarshalIndent(val, "  ", "") }, func() ([]byte, error) { return stdjson.MarshalIndent(val, "  ", "") }},
 	} {
 		var m1, m2 []byte
 		var e1, e2 error
